@@ -484,6 +484,13 @@ let register (reg : string -> (Sx.t list -> Sx.t) -> unit) : unit =
       | [tok; tt; ts] ->
         wr_bool (GenericProvider.generic_validate (rd_str tok) { GenericProvider.rp_transport_ok = rd_bool tt; rp_status = rd_z ts })
       | _ -> raise (Bad "generic_validate arity"));
+  (* ---- which handler answers a liveness / readiness probe ---- *)
+  reg "probe" (function
+      | [pp; rp; pu; gcp; ok; path; ua] ->
+        let c = { Probe.ping_path = rd_str pp; ready_path = rd_str rp; ping_ua = rd_str pu; gcp_checks = rd_bool gcp } in
+        Y (match Probe.probe c (rd_bool ok) (rd_str path) (rd_str ua) with
+            | Probe.Alive -> "alive" | Probe.ReadyOK -> "ready" | Probe.NotReady -> "notready" | Probe.Pass -> "pass")
+      | _ -> raise (Bad "probe arity"));
   (* ---- the legacy header flags converted into header lists ---- *)
   reg "legacy_headers" (function
       | [pba; pat; puh; paz; sba; sxa; saz; pref; strip; pw] ->
